@@ -267,9 +267,7 @@ theorem step_Q (c : Cfg) (s : St) (i : In) (now wall : Nat) (hb : BufQ Q s) (hi 
       · intro e he
         rcases List.mem_append.mp he with he | he
         · rcases List.mem_append.mp he with he | he
-          · split at he
-            · simp at he
-            · simp at he; subst he; exact hi _
+          · simp at he; subst he; exact hi _
           · exact cancelTimer_Q Q hQ _ e he
         · obtain ⟨x, _, rfl⟩ := List.mem_map.mp he
           exact hQ _ rfl
@@ -689,7 +687,7 @@ theorem step_nbirth (c : Cfg) (h : St) (ts bd id now : Nat) (hnew : h.birthTs < 
   intro hm
   rcases List.mem_append.mp hm with hm | hm
   · rcases List.mem_append.mp hm with hm | hm
-    · split at hm <;> simp at hm
+    · simp at hm
     · simp [cancelTimer, ht] at hm
   · obtain ⟨x, _, hx⟩ := List.mem_map.mp hm
     cases hx
